@@ -1,6 +1,7 @@
 /-
-  Certificate obligations, part 0 of 8 of the `patched` client system (kernel evaluation; one module per
-  part so that lake checks them in parallel). Assembled in `Lemmas/CliCert.lean`.
+  Certificate obligations, parts 0..7 of 64 of the `patched` client system (kernel evaluation; 8 modules
+  so that lake checks them in parallel; small parts keep the kernel's memory small).
+  Assembled in `Lemmas/CliCert.lean`.
 -/
 import KmipModel.Model.CliConn
 import KmipModel.Gen.CertCliConn
@@ -9,5 +10,19 @@ open Kmip.CliLts Kmip.CliConn Kmip.Gen.CertCliConn
 
 theorem paClosed0 : partClosed (sys patched) codec certPatched paP0 = true := by decide +kernel
 theorem paSafe0 : partSafe codec (badFull patched) paP0 = true := by decide +kernel
+theorem paClosed1 : partClosed (sys patched) codec certPatched paP1 = true := by decide +kernel
+theorem paSafe1 : partSafe codec (badFull patched) paP1 = true := by decide +kernel
+theorem paClosed2 : partClosed (sys patched) codec certPatched paP2 = true := by decide +kernel
+theorem paSafe2 : partSafe codec (badFull patched) paP2 = true := by decide +kernel
+theorem paClosed3 : partClosed (sys patched) codec certPatched paP3 = true := by decide +kernel
+theorem paSafe3 : partSafe codec (badFull patched) paP3 = true := by decide +kernel
+theorem paClosed4 : partClosed (sys patched) codec certPatched paP4 = true := by decide +kernel
+theorem paSafe4 : partSafe codec (badFull patched) paP4 = true := by decide +kernel
+theorem paClosed5 : partClosed (sys patched) codec certPatched paP5 = true := by decide +kernel
+theorem paSafe5 : partSafe codec (badFull patched) paP5 = true := by decide +kernel
+theorem paClosed6 : partClosed (sys patched) codec certPatched paP6 = true := by decide +kernel
+theorem paSafe6 : partSafe codec (badFull patched) paP6 = true := by decide +kernel
+theorem paClosed7 : partClosed (sys patched) codec certPatched paP7 = true := by decide +kernel
+theorem paSafe7 : partSafe codec (badFull patched) paP7 = true := by decide +kernel
 
 end Kmip.CliCert
